@@ -410,3 +410,13 @@ func Test35ContentErrorUnwind(t *testing.T) {
 		t.Errorf("%s", r)
 	}
 }
+
+func Test36ReturnInBlock(t *testing.T) {
+	files := map[string]string{
+		"/r.jet": `{{block b()}}{{return "fromblock"}}{{end}}`,
+		"/r2.jet": `{{block b()}}x{{yield content}}{{end}}{{yield b() content}}{{return "fromcontent"}}{{end}}`,
+		"/r3.jet": `{{return "early"}}{{block b()}}{{return "fromblock"}}{{end}}`,
+		"/t.jet": `[{{exec("/r.jet")}}][{{exec("/r2.jet")}}][{{exec("/r3.jet")}}]`,
+	}
+	wantOut(t, run(nil, files, "/t.jet", nil, nil), "[fromblock][fromcontent][fromblock]")
+}
